@@ -28,7 +28,7 @@ ASSUMPTIONS = ["observed ranges are those of the baseline days the sub-model was
                "range checks carry a tolerance of 1e-9 of the range",
                "the segment limits are the n-th smallest / largest fitted temperature, n = segment_minimum_count"]
 REQUIRED_REACH = {"fit.done": 10, "submodel.judged": 10, "component.curve_compared": 60, "hook.optimized_result": 100, "component.final_compared": 10,
-                  "component.uncertainty_judged": 60, "component.effective_sample_size_at_its_floor": 1, "data.autocorrelated_residuals": 3, "data.base_load_step": 2}
+                  "component.uncertainty_judged": 60, "component.effective_sample_size_at_its_floor": 1, "data.autocorrelated_residuals": 3, "data.base_load_step": 2, "data.no_positive_slope_on_either_side": 6}
 
 VIOL = []
 
@@ -197,9 +197,14 @@ def gen_cases(tier, seed):
     profs = ["current", "legacy", "billing", "current", "dev-c_hdd", "dev-nosmooth", "dev-alpha-all", "dev-nofinal", "custom-maps", "legacy-dev-splits"]
     cases = []
     for i in range(n):
-        cases.append(dict(kind="fit", profile=profs[i % (4 if q else len(profs))], usage=["both", "heating", "cooling", "flat"][i % 4],
+        cases.append(dict(kind="fit", profile=profs[i % (4 if q else len(profs))], usage=["both", "heating", "cooling", "flat", "inverted"][(i + i // 4) % 5],
                           weekend=[0.0, 0.3, 0.0, 0.5][(i // 4) % 4], season=[0.0, 0.0, 0.25][(i // 3) % 3], noise=[0.01, 0.05, 0.2, 0.1][(i // 2) % 4],
                           outliers=[0, 0, 6][i % 3], tz=zones[i % len(zones)], n_days=[365, 330, 350][i % 3], round_T=bool(i % 5 == 4), n=i, timeout=2400))
+    # shapes for which the initial guess finds no positive slope on either side: flat and inverted-V usage, several noise draws, every profile
+    for j in range(9 if q else 90):
+        i = n + 1000 + j
+        cases.append(dict(kind="fit", profile=["legacy", "current", "billing"][j % 3], usage=["flat", "inverted", "flat"][(j // 3) % 3], weekend=0.0, season=0.0,
+                          noise=[0.05, 0.1, 0.2][j % 3], outliers=0, tz=zones[j % len(zones)], n_days=365, round_T=False, n=i, timeout=2400))
     na = 8 if q else 60
     for j in range(na):
         i = n + j
@@ -236,6 +241,8 @@ def run_case(spec):
         data = em.DailyBaselineData(df, is_electricity_data=True)
         m = FT.make_daily_model(prof).fit(data, ignore_disqualification=True)
     I.reach("fit.done")
+    if spec["usage"] in ("flat", "inverted"):
+        I.reach("data.no_positive_slope_on_either_side")
     d = m.to_dict()
     n_seg = int(m.settings.segment_minimum_count)
     types = []
